@@ -313,11 +313,18 @@ impl FeatureState for HierarchicalAreasState {
             return;
         };
 
-        // iterate over all place locations, get respective tier's medoids, and update medoid index
-        // NOTE this approach is suboptimal for jobs with alternative locations, but it's fine for now
-        let medoid_index = job
-            .places()
-            .filter_map(|place| place.location.as_ref())
+        // iterate over locations of inserted activities, get respective tier's medoids, and update medoid index
+        // NOTE use actual locations only: alternative places of the job which are not used should not affect the index
+        let locations =
+            route_ctx.route().tour.job_activities(job).map(|activity| activity.place.location).collect::<Vec<_>>();
+        let locations = if locations.is_empty() {
+            job.places().filter_map(|place| place.location).collect::<Vec<_>>()
+        } else {
+            locations
+        };
+
+        let medoid_index = locations
+            .iter()
             .filter_map(|location| self.hierarchy_index.get(location))
             .flat_map(|cluster| {
                 self.hierarchy_index
